@@ -90,6 +90,7 @@ class Model {
   std::vector<std::vector<Exp>> floating;               // per recipient: must arrive by the next quiescent point, position free
   std::vector<PendingReply> pending;
   Limits lim;
+  unsigned bus_uid = 0;                                  // uid the bus runs as
   uint64_t event = 0;
   int64_t now_us = 0;
   std::map<std::string, uint64_t> probes;               // rare-branch counters
@@ -99,7 +100,7 @@ class Model {
   std::set<std::string> activatable;                    // names with a service file (C19)
 
   // policy plug-in points (default: allow).  See model/policy.h for the real evaluator.
-  std::function<bool(int sender, const wire::Msg &m, int recipient /* -1 = bus */, bool requested_reply)> can_send;
+  std::function<bool(int sender, const wire::Msg &m, int recipient /* -1 = bus */, int addressed, bool requested_reply)> can_send;
   std::function<bool(int sender /* -1 = bus */, const wire::Msg &m, int recipient, int addressed, bool requested_reply)> can_receive;
   std::function<bool(int c, const std::string &name)> can_own;
 
@@ -108,6 +109,10 @@ class Model {
   void process(int c, const wire::Msg &m);
   // H2 with the Local.Disconnected pseudo-message
   void disconnect(int c);
+  // probe H2c: the bus expired the reply slot (caller, callee, serial) and sent NoReply
+  void reply_expired(int caller, int callee, uint32_t serial);
+  // slots whose deadline has passed (the bus must expire them once its loop runs)
+  std::vector<PendingReply> overdue() const;
   // a white-box observation resolves an open choice: the actual queue order
   void resolve_choice(const std::string &name, const std::vector<int> &actual_order);
   // rules naming a unique name that went away: dropped (true) or kept (false)
@@ -124,6 +129,8 @@ class Model {
  private:
   void emit(int recipient, Exp e);
   void emit_floating(int recipient, Exp e);
+  bool bus_may_deliver(int recipient, const wire::Msg &m);   // receive policy of the recipient for a bus-originated message
+  void emit_from_bus(int recipient, Exp e, bool floating = false);
   void emit_broadcast_from_bus(const wire::Msg &sig);
   void route(int c, const wire::Msg &m, int addressed);
   void route_matches(int sender, const wire::Msg &m, int addressed, bool requested);
